@@ -474,6 +474,10 @@ class LiveMedia(MediaRequestBase):
                 logging.debug('oldest fragment %d start = %s', first, first_tc)
             raise ValueError(
                 f'Segment {seg_num} not found (valid range= {first}->{last})')
+        if mode == 'live':
+            # the live timeline counts from zero, but the decode times in
+            # the media file might start from a non-zero value
+            origin_time -= representation.start_time
         return (mod_segment, origin_time, seg_num,)
 
 
@@ -561,7 +565,9 @@ class ServeMpsMedia(MediaRequestBase):
         mod_seg, seg_start_tc, origin_time = representation.get_segment_index(
             start_time)
 
-        origin_time = -seg_start_tc
+        # decode times are counted from zero at the start of the Period,
+        # but the media file might start from a non-zero value
+        origin_time = -seg_start_tc - representation.start_time
         if seg_time is not None:
             origin_time += seg_time
 
